@@ -22,7 +22,7 @@ theorem pin_token_Pos_IsValid : Gen.C02.pin_token_Pos_IsValid = "bde37ca2594d007
 theorem pin_token_Pos_Filename : Gen.C02.pin_token_Pos_Filename = "6795ed360d790756" := by decide
 theorem pin_token_Pos_Offset : Gen.C02.pin_token_Pos_Offset = "4eaca812afb1e38f" := by decide
 theorem pin_token_Pos_HasAbsPos : Gen.C02.pin_token_Pos_HasAbsPos = "25edd0214c79bea2" := by decide
-theorem pin_toposort_compareNodeByName : Gen.C02.pin_toposort_indexComparison_compareNodeByName = "2d6dfa105f48e57d" := by decide
+theorem pin_toposort_compareNodeByName : Gen.C02.pin_toposort_indexComparison_compareNodeByName = "d390e39c12c8479c" := by decide
 theorem pin_toposort_compareComponentsByNodes : Gen.C02.pin_toposort_indexComparison_compareComponentsByNodes = "5470addf40591194" := by decide
 theorem pin_toposort_Graph_Sort : Gen.C02.pin_toposort_Graph_Sort = "75d5d60eb8378346" := by decide
 theorem pin_toposort_appendNodes : Gen.C02.pin_toposort_appendNodes = "64a660746af55357" := by decide
